@@ -50,12 +50,18 @@ W_MODES = set('wxa+')
 
 
 def is_big(ck: Ck) -> bool:
-    """Thorough budgets: thorough tier, a broken tie, or an AtomicWriter AST digest the model was not written against."""
-    return ck.thorough or bool(ck.tie_broken) or bool(ck.extra.get('escalated_by_digest'))
+    """Thorough budgets: thorough tier or a broken tie."""
+    return ck.thorough or bool(ck.tie_broken)
+
+
+def escalated(ck: Ck) -> bool:
+    """Also true when the AST digest of AtomicWriter is not one the model was written against (DESIGN 5.4): more random
+    scenarios and every BSP.save kill/fault point, but not the full thorough matrix."""
+    return is_big(ck) or bool(ck.extra.get('escalated_by_digest'))
 
 
 def budget(ck: Ck, quick: int, thorough: int) -> int:
-    return thorough if is_big(ck) else quick
+    return thorough if escalated(ck) else quick
 
 
 class BodyError(Exception):
@@ -603,7 +609,7 @@ def single_campaign(ck: Ck, scs: list[dict], do_model: bool) -> None:
         # ---- a kill before every operation (k operations completed), executed in a forked child
         # long traces (BSP.save: one raw write per deferred header slot): the quick tier executes every kill/fault point
         # that is not a write plus a seeded sample of the writes; the thorough tier (and any broken tie) executes all
-        full = len(ops0) <= 24 or is_big(ck)
+        full = len(ops0) <= 24 or escalated(ck)
         keep = {o['k'] for o in ops0 if o['op'] != 'write'} | {len(ops0)} | {0}
         wks = [o['k'] for o in ops0 if o['op'] == 'write']
         keep |= set(wks[:2] + wks[-2:] + ck.rng.sample(wks, min(len(wks), 10)))
@@ -1014,7 +1020,7 @@ def run(ck: Ck) -> None:
     # AST digests only escalate budgets (DESIGN 5.4)
     dig = side.get('digests', {})
     if dig and (dig.get('__exit__'), dig.get('make_tempfile')) not in KNOWN_DIGESTS:
-        ck.notes.append('AtomicWriter source differs from the versions the model was written against: thorough budgets')
+        ck.notes.append('AtomicWriter source differs from the versions the model was written against: escalated budgets')
         ck.extra['escalated_by_digest'] = True
     import time
     cwd0 = os.getcwd()
